@@ -20,6 +20,12 @@ func init() {
 	for _, m := range []string{"Write", "WriteByte", "WriteString", "WriteRune", "Grow", "Reset", "Truncate", "ReadFrom"} {
 		summaries["(*bytes.Buffer)."+m] = func(c *fc, site ssa.CallInstruction, callee *ssa.Function, args []ssa.Value) {
 			c.writerWrite(site, args[0], "bytes.Buffer."+callee.Name())
+			if callee.Name() == "Write" && len(args) > 1 {
+				// bytes of p end up in the buffer's storage: p -> every object reachable from the buffer
+				c.a.addComplex(c.node(args[0]), complexC{kind: cHook, hook: func(l Loc) {
+					c.a.byteFlows = append(c.a.byteFlows, byteFlow{src: c.node(args[1]), dst: c.a.locNode(Loc{l.Obj, l.Path + ".buf"})})
+				}})
+			}
 		}
 	}
 	summaries["(*bytes.Buffer).Bytes"] = func(c *fc, site ssa.CallInstruction, callee *ssa.Function, args []ssa.Value) {
@@ -33,6 +39,7 @@ func init() {
 	}
 	summaries["(*bytes.Buffer).Read"] = func(c *fc, site ssa.CallInstruction, callee *ssa.Function, args []ssa.Value) {
 		c.effect(EffExternalWrite, args[1], "[*]", site, "bytes.Buffer.Read fills its argument")
+		c.a.byteFlows = append(c.a.byteFlows, byteFlow{src: c.node(args[0]), dst: c.node(args[1]), reader: true})
 	}
 	summaries["bytes.NewBuffer"] = func(c *fc, site ssa.CallInstruction, callee *ssa.Function, args []ssa.Value) {
 		v := site.Value()
@@ -55,6 +62,7 @@ func init() {
 	for _, m := range []string{"Read", "ReadAt"} {
 		summaries["(*bytes.Reader)."+m] = func(c *fc, site ssa.CallInstruction, callee *ssa.Function, args []ssa.Value) {
 			c.effect(EffExternalWrite, args[1], "[*]", site, "bytes.Reader.Read fills its argument")
+			c.a.byteFlows = append(c.a.byteFlows, byteFlow{src: c.node(args[0]), dst: c.node(args[1]), reader: true})
 		}
 	}
 	for _, m := range []string{"ReadByte", "UnreadByte", "Len", "Size", "Seek", "Reset"} {
@@ -67,6 +75,7 @@ func init() {
 	summaries["encoding/binary.Read"] = func(c *fc, site ssa.CallInstruction, callee *ssa.Function, args []ssa.Value) {
 		c.readerRead(site, args[0], "binary.Read")
 		c.effect(EffExternalWrite, args[2], "", site, "binary.Read stores through its data argument")
+		c.a.byteFlows = append(c.a.byteFlows, byteFlow{src: c.node(args[0]), dst: c.node(args[2]), reader: true})
 	}
 	for _, e := range []string{"bigEndian", "littleEndian"} {
 		for _, m := range []string{"PutUint16", "PutUint32", "PutUint64"} {
@@ -83,11 +92,15 @@ func init() {
 		summaries[m] = func(c *fc, site ssa.CallInstruction, callee *ssa.Function, args []ssa.Value) {
 			c.readerRead(site, args[0], callee.Name())
 			c.effect(EffExternalWrite, args[1], "[*]", site, callee.Name()+" fills its buffer argument")
+			c.a.byteFlows = append(c.a.byteFlows, byteFlow{src: c.node(args[0]), dst: c.node(args[1]), reader: true})
 		}
 	}
 	summaries["io.ReadAll"] = func(c *fc, site ssa.CallInstruction, callee *ssa.Function, args []ssa.Value) {
 		c.readerRead(site, args[0], "io.ReadAll")
 		c.freshResults(site, callee)
+		if v := site.Value(); v != nil {
+			c.a.byteFlows = append(c.a.byteFlows, byteFlow{src: c.node(args[0]), dst: c.a.baseNode(nodeBase{c.a.regBase(v, c.ctx), ".#0"}, ""), reader: true})
+		}
 	}
 	for _, m := range []string{"io.CopyN", "io.Copy"} {
 		summaries[m] = func(c *fc, site ssa.CallInstruction, callee *ssa.Function, args []ssa.Value) {
